@@ -180,6 +180,16 @@ func runC18Case(cc c18Case, modelLine *string, modelWant *string) (string, strin
 		if err != nil || string(f.Payload) != "ok" || f.Op != cc.MsgType {
 			return "write-not-one-message", fmt.Sprintf("%s: peer got %+v %v", desc, f, err)
 		}
+	case "transport-failure":
+		// the transport breaks (no Close frame): reads must fail with an error that is not io.EOF
+		go func() { time.Sleep(20 * time.Millisecond); b.Close() }()
+		_, err := nc.Read(make([]byte, 8))
+		if err == nil || err == io.EOF {
+			return "failure-reads-as-eof", fmt.Sprintf("%s: the transport broke without a Close frame and Read returned %v", desc, err)
+		}
+		if _, err2 := nc.Read(make([]byte, 8)); err2 == nil || err2 == io.EOF {
+			return "failure-reads-as-eof", fmt.Sprintf("%s: second Read after a transport failure returned %v", desc, err2)
+		}
 	case "deadline-active":
 		nc.SetReadDeadline(time.Now().Add(40 * time.Millisecond))
 		buf := make([]byte, 8)
@@ -187,6 +197,9 @@ func runC18Case(cc c18Case, modelLine *string, modelWant *string) (string, strin
 		_, err := nc.Read(buf) // nothing arrives: the deadline fires during the call
 		if err == nil {
 			return "active-deadline-no-error", desc
+		}
+		if err == io.EOF {
+			return "failure-reads-as-eof", desc + ": a deadline that fired during a blocked Read made it return io.EOF (only a normal / going-away close reads as io.EOF; io.ReadAll would take the stream for complete)"
 		}
 		if d := time.Since(t0); d > 2*time.Second {
 			return "active-deadline-slow", fmt.Sprintf("%s: Read returned after %v", desc, d)
@@ -225,6 +238,9 @@ func runC18Case(cc c18Case, modelLine *string, modelWant *string) (string, strin
 		case err := <-done:
 			if err == nil {
 				return "active-deadline-no-error", desc + ": the blocked call succeeded after a past deadline was set during it"
+			}
+			if err == io.EOF {
+				return "failure-reads-as-eof", desc + ": the blocked call returned io.EOF although the peer never closed"
 			}
 		case <-time.After(3 * time.Second):
 			return "active-deadline-no-error", desc + ": the blocked call did not fail within 3s of a past deadline being set during it"
@@ -466,7 +482,7 @@ func firstDiff(a, b []byte) int {
 func runC18(ctx *runCtx) {
 	rep := ctx.rep
 	rep.Rule = "sequences of write sizes (0..70000, empty messages, fragmented by the peer) x sequences of read-buffer sizes (1..70000), both message types, both roles, ended by peer Close codes {1000, 1001, others}: bytes read == bytes written, EOF mapping and stickiness, no (0, nil) reads, compared with the Lean NetConn model; " +
-		"wrong message type -> error + Close 1003 at the peer; deadlines in the past / future / zero while idle (calls fail with a deadline error until reset, connection stays usable) and firing during a call, including a past deadline set while a Read / Write is blocked (call fails, connection closed); generated deadline programs (zero / future / past deadlines on either or both directions, before, between and during calls) against by-construction ground truth and the Lean deadline model; library-to-library pairs. distinct = case tuple"
+		"wrong message type -> error + Close 1003 at the peer; a broken transport or a deadline during a blocked Read never reads as io.EOF; deadlines in the past / future / zero while idle (calls fail with a deadline error until reset, connection stays usable) and firing during a call, including a past deadline set while a Read / Write is blocked (call fails, connection closed); generated deadline programs (zero / future / past deadlines on either or both directions, before, between and during calls) against by-construction ground truth and the Lean deadline model; library-to-library pairs. distinct = case tuple"
 	if ctx.replay != "" {
 		var cc c18Case
 		if err := loadReplay(ctx.replay, &cc); err == nil && cc.Kind != "" {
@@ -526,7 +542,7 @@ func runC18(ctx *runCtx) {
 	}
 	for _, client := range []bool{true, false} {
 		for mt := 1; mt <= 2; mt++ {
-			for _, k := range []string{"wrong-type", "deadline-idle", "deadline-write-idle", "deadline-active", "deadline-past-during-read", "deadline-past-during-write"} {
+			for _, k := range []string{"wrong-type", "deadline-idle", "deadline-write-idle", "deadline-active", "deadline-past-during-read", "deadline-past-during-write", "transport-failure"} {
 				cases = append(cases, c18Case{Kind: k, Client: client, MsgType: mt, Seed: ctx.seed})
 			}
 			cases = append(cases, c18Case{Kind: "stream", Client: client, MsgType: mt, Writes: nil, Reads: []int{8}, Code: 1000, Seed: ctx.seed})
